@@ -72,7 +72,7 @@ Add(a, b) ==
 Sub(a, b) ==
   IF a.k = "list" THEN (IF b.k = "list" THEN List(Without(a.s, Elems(b.s)))
                         ELSE IF b.k = "int" THEN List(Without(a.s, {b.n}))
-                        ELSE IF b.k = "null" THEN ErrV ELSE Skip)
+                        ELSE Skip)     \* (list - NULL is a list operation the statement does not define: not compared)
   ELSE IF a.k = "null" \/ b.k = "null" THEN Null
   ELSE IF a.k = "int" /\ b.k = "int" THEN IntV(a.n - b.n)
   ELSE IF IsNum(a) /\ IsNum(b) THEN Dec(a.n * b.d - b.n * a.d, a.d * b.d)
@@ -136,7 +136,7 @@ Occurs(s, t) == \E p \in 0..(Len(s) - Len(t)) : SubSeq(s, p + 1, p + Len(t)) = t
 \* NodeIn: list -> any Equal element; string -> substring (FALSE when the
 \* needle is not a string); anything else -> FALSE
 In(a, c) ==
-  IF c.k = "list" THEN Bool(a.k = "int" /\ a.n \in Elems(c.s))
+  IF c.k = "list" THEN Bool(IsNum(a) /\ \E x \in Elems(c.s) : a.n = x * a.d)       \* membership is by equality: 2.0 in [2]
   ELSE IF c.k = "str" THEN Bool(a.k = "str" /\ Occurs(c.s, a.s))
   ELSE Bool(FALSE)
 
